@@ -101,19 +101,7 @@ static size_t rtCurrentDevice(void *userdata, size_t track)
 static void rtSongBegin(void *userdata)
 {
     OPNMIDIplay *context = reinterpret_cast<OPNMIDIplay *>(userdata);
-    context->realTime_ResetState();
-
-    /* Playback can come here again (seek, rewind, loop): start with the programs,
-     * banks and synth mode a just loaded song has, not with what it left behind */
-    for(size_t ch = 0; ch < context->m_midiChannels.size(); ch++)
-    {
-        OPNMIDIplay::MIDIchannel &chan = context->m_midiChannels[ch];
-        chan.patch = 0;
-        chan.bank_msb = 0;
-        chan.bank_lsb = 0;
-        chan.is_xg_percussion = false;
-    }
-    context->m_synthMode = OPNMIDIplay::Mode_XG;
+    context->realTime_SongBegin();
 }
 /* NonStandard calls End */
 
